@@ -496,7 +496,7 @@ static void do_getval (void *arg)
 	mpq_clear (v);
 }
 
-typedef struct { const char *path, *type; } tryarg;
+typedef struct { const char *path, *type; int nosolve; } tryarg;
 static void do_tryread (void *arg)
 {
 	tryarg *a = (tryarg *) arg;
@@ -508,7 +508,7 @@ static void do_tryread (void *arg)
 		mpq_t *x = mpq_EGlpNumAllocArray (n + m + 1), *y = mpq_EGlpNumAllocArray (m + 1);
 		w1 = mpq_QSwrite_prob (p, "/dev/null", "LP");
 		w2 = mpq_QSwrite_prob (p, "/dev/null", "MPS");
-		rv = QSexact_solver (p, x, y, NULL, DUAL_SIMPLEX, &st);
+		rv = a->nosolve ? 0 : QSexact_solver (p, x, y, NULL, DUAL_SIMPLEX, &st);
 		mpq_EGlpNumFreeArray (x); mpq_EGlpNumFreeArray (y);
 		mpq_QSfree_prob (p);
 		printf ("TRYREAD PROB %d %d %d w%d%d s%d:%d\n", nerr, n, m, w1 ? 1 : 0, w2 ? 1 : 0, rv ? 1 : 0, st);
@@ -617,7 +617,8 @@ int main (int argc, char **argv)
 		else if (!strcmp (op, "TRYREAD"))
 		{
 			tryarg a;
-			a.path = path_of (qsx_tok[1]); a.type = qsx_tok[2];
+			/* TRYREAD file fmt [secs [nosolve]] : nosolve skips the solver (used to tell a slow solve from a reader that hangs) */
+			a.path = path_of (qsx_tok[1]); a.type = qsx_tok[2]; a.nosolve = (qsx_ntok > 4 && !strcmp (qsx_tok[4], "nosolve"));
 			in_child ("TRYREAD", do_tryread, &a, qsx_ntok > 3 ? atoi (qsx_tok[3]) : 10);
 		}
 		else if (!strcmp (op, "READ") || !strcmp (op, "READP"))
